@@ -223,6 +223,16 @@ func (rw *rewriter) isIntegerPtrDeref(e ast.Expr) bool {
 	return ok && b.Info()&types.IsInteger != 0
 }
 
+// isNetListener: the expression's static type is the interface net.Listener.
+func (rw *rewriter) isNetListener(e ast.Expr) bool {
+	t := rw.info.TypeOf(e)
+	if t == nil {
+		return false
+	}
+	n, ok := t.(*types.Named)
+	return ok && n.Obj().Pkg() != nil && n.Obj().Pkg().Path() == "net" && n.Obj().Name() == "Listener"
+}
+
 func (rw *rewriter) isHeaderIndex(e ast.Expr) bool {
 	ix, ok := e.(*ast.IndexExpr)
 	if !ok {
@@ -326,9 +336,15 @@ func (rw *rewriter) run() {
 						c.Replace(rw.vrt("TrackFile", n))
 					}
 				}
-			} else if isPkgSel(n.Fun, "net", "Listen") {
-				n.Fun = sel("vrt", "NetListen")
-				rw.needVrt = true
+			} else if se, ok := n.Fun.(*ast.SelectorExpr); ok && len(n.Args) == 0 && (se.Sel.Name == "Accept" || se.Sel.Name == "Close") && rw.isNetListener(se.X) {
+				// Accept on a net.Listener is a blocking scheduling point (readiness of the listening descriptor or the
+				// listener being closed) followed by the real, then non-blocking, Accept; Close is noted for that purpose
+				if se.Sel.Name == "Accept" {
+					c.Replace(rw.vrt("Accept", se.X))
+				} else {
+					c.Replace(rw.vrt("CloseListener", se.X))
+				}
+				rw.stats["listener"]++
 			}
 		case *ast.RangeStmt:
 			// rule A10: iteration over a map in a deterministic key order (Go randomises it; the explorer must own
